@@ -80,7 +80,10 @@ class RichData:
     def x(self):
         """X coordinate axis, 1D."""
         if self._x is None:
-            self._x, self._y = make_xy_grid(self.data.shape, dx=self.dx)
+            x, y = make_xy_grid(self.data.shape, dx=self.dx)
+            self._x = x
+            if self._y is None:  # do not clobber a y the user assigned
+                self._y = y
 
         return self._x
 
@@ -93,7 +96,10 @@ class RichData:
     def y(self):
         """Y coordinate axis, 1D."""
         if self._y is None:
-            self._x, self._y = make_xy_grid(self.data.shape, dx=self.dx)
+            x, y = make_xy_grid(self.data.shape, dx=self.dx)
+            self._y = y
+            if self._x is None:  # do not clobber an x the user assigned
+                self._x = x
 
         return self._y
 
@@ -106,7 +112,10 @@ class RichData:
     def r(self):
         """r coordinate axis, 2D."""
         if self._r is None:
-            self._r, self._t = cart_to_polar(self.x, self.y)
+            r, t = cart_to_polar(self.x, self.y)
+            self._r = r
+            if self._t is None:  # do not clobber a t the user assigned
+                self._t = t
 
         return self._r
 
@@ -118,7 +127,10 @@ class RichData:
     def t(self):
         """t coordinate axis, 2D."""
         if self._t is None:
-            self._r, self._t = cart_to_polar(self.x, self.y)
+            r, t = cart_to_polar(self.x, self.y)
+            self._t = t
+            if self._r is None:  # do not clobber an r the user assigned
+                self._r = r
 
         return self._t
 
